@@ -148,7 +148,12 @@ def gen_c11(seed, cfg=None):  # noqa: C901, PLR0912, PLR0915
                                                ("M1Str", "coerce_int_hash"), ("CTags", "const_factory"),
                                                ("CLinkStr", "link_b_cs"), ("CLinkStr", "link_a_cs"),
                                                ("CLinkStr", "coerce_int_str"), ("CLinkStr", "coerce_int_hash")])
-    n_ops = rng.randint(2, 14)
+    # inline mode: every per-call recipe is written out afresh at the call site (new provider objects each time, dead
+    # right after the call) and alternates between the recipes that decide this pair's result
+    inline_alts = {"CLink": ["link_b_c", "link_a_c"], "M1Str": ["coerce_int_str", "coerce_int_hash"],
+                   "CLinkStr": ["link_b_cs", "link_a_cs", "coerce_int_str", "coerce_int_hash"]}
+    inline_mode = conv_centric and conv_focus[0] in inline_alts and rng.random() < 0.4
+    n_ops = rng.randint(2, 14) if not inline_mode else rng.randint(5, 14)
     prog = []
     callables = []   # (kind, type or conv)
 
@@ -188,7 +193,11 @@ def gen_c11(seed, cfg=None):  # noqa: C901, PLR0912, PLR0915
                 callables.append(("get_converter", c))
             else:
                 op = {"op": "convert", "h": h, "conv": c, "o": rng.choice(pools.CONVERTERS[c][2])}
-            if rng.random() < 0.5:
+            if inline_mode and c in inline_alts:
+                op["rcp"] = rng.choice(inline_alts[c])
+                if rng.random() < 0.3:
+                    prog.append({"op": "gc"})
+            elif rng.random() < 0.5:
                 # per-call recipe: get_converter(..., recipe=[...]); mostly this history's favourite one, given as
                 # the same provider objects on every call (a module-level recipe list)
                 if rng.random() < 0.7:
